@@ -81,6 +81,60 @@ func admitted(c cell) (ok bool, why string) {
 	return true, ""
 }
 
+// specPair is a document with two parameters that share one component schema: first of cell c1,
+// then of cell c2, in one operation (layout 0), with c1 at path level (1), in an earlier path (2) or
+// as a component parameter (3).
+func specPair(c1, c2 cell, layout int) string {
+	schema := map[string]string{
+		"prim":   `{"type":"string"}`,
+		"array":  `{"type":"array","items":{"type":"string"}}`,
+		"object": `{"type":"object","properties":{"a":{"type":"string"},"b":{"type":"string"}}}`,
+	}[c1.Shape]
+	param := func(name string, c cell) string {
+		req := "false"
+		if c.Loc == "path" {
+			req = "true"
+		}
+		return fmt.Sprintf(`{"name":%q,"in":%q,"required":%s,"style":%q,"explode":%v,"schema":{"$ref":"#/components/schemas/S"}}`, name, c.Loc, req, c.Style, c.Explode)
+	}
+	seg := func(name string, c cell) string {
+		if c.Loc == "path" {
+			return "/{" + name + "}"
+		}
+		return ""
+	}
+	op := func(id, params string) string {
+		return fmt.Sprintf(`{"operationId":%q,"parameters":[%s],"responses":{"200":{"description":"ok"}}}`, id, params)
+	}
+	var paths, comps string
+	switch layout {
+	case 0:
+		paths = fmt.Sprintf(`%q:{"get":%s}`, "/x"+seg("p1", c1)+seg("p2", c2), op("op", param("p1", c1)+","+param("p2", c2)))
+	case 1:
+		paths = fmt.Sprintf(`%q:{"parameters":[%s],"get":%s}`, "/x"+seg("p1", c1)+seg("p2", c2), param("p1", c1), op("op", param("p2", c2)))
+	case 2:
+		paths = fmt.Sprintf(`%q:{"get":%s},%q:{"get":%s}`, "/a"+seg("p1", c1), op("op1", param("p1", c1)), "/b"+seg("p2", c2), op("op2", param("p2", c2)))
+	default:
+		comps = `,"parameters":{"P1":` + param("p1", c1) + `}`
+		paths = fmt.Sprintf(`%q:{"get":%s}`, "/x"+seg("p1", c1)+seg("p2", c2), op("op", `{"$ref":"#/components/parameters/P1"},`+param("p2", c2)))
+	}
+	return fmt.Sprintf(`{"openapi":"3.0.3","info":{"title":"t","version":"1"},"paths":{%s},"components":{"schemas":{"S":%s}%s}}`, paths, schema, comps)
+}
+
+func admittedDoc(doc string) (ok bool) {
+	defer func() {
+		if r := recover(); r != nil {
+			ok = false
+		}
+	}()
+	spec, err := ogen.Parse([]byte(doc))
+	if err != nil {
+		return false
+	}
+	_, err = gen.NewGenerator(spec, gen.Options{})
+	return err == nil
+}
+
 // ---------- driving the uri package the way generated code does ----------
 
 func encodeInto(e uri.Encoder, c cell, v value) error {
@@ -783,6 +837,75 @@ func main() {
 			}
 		}
 	}
+	// admission next to another parameter: a cell refused on its own may still get through when an
+	// earlier parameter uses the same component schema (whatever a parser remembers about a schema
+	// is remembered per schema, not per cell); every cell that gets through anywhere is driven
+	var refused []cell
+	isAdmitted := map[cell]bool{}
+	for _, c := range cells {
+		isAdmitted[c] = true
+	}
+	for _, loc := range []string{"path", "query", "header", "cookie"} {
+		for _, st := range styles {
+			for _, ex := range []bool{false, true} {
+				for _, sh := range []string{"prim", "array", "object"} {
+					if c := (cell{loc, st, ex, sh}); !isAdmitted[c] {
+						refused = append(refused, c)
+					}
+				}
+			}
+		}
+	}
+	var pairDocs, contextOnly int
+	var contextCells []string
+	{
+		type res struct {
+			c   cell
+			via string
+		}
+		var mu sync.Mutex
+		var found []res
+		var wg sync.WaitGroup
+		sem := make(chan struct{}, runtime.NumCPU())
+		for _, c2 := range refused {
+			c2 := c2
+			wg.Add(1)
+			sem <- struct{}{}
+			go func() {
+				defer wg.Done()
+				defer func() { <-sem }()
+				n := 0
+				for _, c1 := range cells {
+					if c1.Shape != c2.Shape {
+						continue
+					}
+					for layout := 0; layout < 4; layout++ {
+						n++
+						if admittedDoc(specPair(c1, c2, layout)) {
+							mu.Lock()
+							found = append(found, res{c2, fmt.Sprintf("after %s (layout %d)", c1, layout)})
+							mu.Unlock()
+						}
+					}
+				}
+				mu.Lock()
+				pairDocs += n
+				mu.Unlock()
+			}()
+		}
+		wg.Wait()
+		sort.Slice(found, func(i, j int) bool { return found[i].c.String()+found[i].via < found[j].c.String()+found[j].via })
+		for _, f := range found {
+			if !isAdmitted[f.c] {
+				isAdmitted[f.c] = true
+				cells = append(cells, f.c)
+				contextOnly++
+				contextCells = append(contextCells, f.c.String()+" "+f.via)
+			}
+		}
+	}
+	r.Set("two_parameter_documents_probed", pairDocs)
+	r.Set("cells_admitted_only_next_to_another_parameter", contextCells)
 	var names []string
 	for _, c := range cells {
 		names = append(names, c.String())
